@@ -256,6 +256,24 @@ def d30_region(s, i):
     return False
 
 
+def d31_region(s, i):
+    """a rerun picked a task execution whose completion had already fired transitions and whose
+    successor is still staged: the successor is offered beside the re-executed task and staged
+    again when that task completes, so it runs twice and the reports of the superseded action meet
+    a record that is completed"""
+    for j in range(1, i + 1):
+        o, r = s["ops"][j], s["replies"][j]
+        if o["op"] == "rerun" and not raised(r):
+            st = r.get("state") or {}
+            picked = (st.get("reruns") or [[]])[-1]
+            seq = st.get("sequence", [])
+            for idx in picked:
+                if idx < len(seq) and any(v for v in (seq[idx].get("next") or {}).values()):
+                    if any(idx in (x.get("prev") or {}).values() for x in st.get("staged", [])):
+                        return True
+    return False
+
+
 def restaged_unfinished(s, i):
     """the mechanism common to D2, D5b, D29 and D30: a task (not one iterating over items) has a
     staged entry again while its latest record is not completed, so the next reports for it land
@@ -282,6 +300,8 @@ def region_of(s, i):
         return "D29"
     if d30_region(s, i):
         return "D30"
+    if d31_region(s, i):
+        return "D31"
     if restaged_unfinished(s, i):
         return "D2"
     return None
@@ -506,6 +526,10 @@ def mon_C11(s):
             fin = None
             if x in ("KeyError", "TypeError", "IndexError") and rearrival_region(s, i):
                 fin = "D5b"
+            elif x in ("KeyError", "TypeError", "IndexError") and op["op"] == "report" and d31_region(s, i):
+                fin = "D31"
+            elif x in ("KeyError", "TypeError", "IndexError") and op["op"] == "report" and restaged_unfinished(s, i):
+                fin = "D2"      # the report of a superseded action meets the record of the later one
             if x == "AttributeError" and op["op"] == "rerun":
                 fin = "D14"
             out.append(V("%s escaped %s" % (x, op["op"]), i, fin))
@@ -759,6 +783,11 @@ def mon_C15(s):
                 fin = "D14"
             if fin is None and op["op"] == "report" and op["task"] in CMDS:
                 fin = "D19"
+            if fin is None and x in ("KeyError", "TypeError", "IndexError") and op["op"] == "report":
+                if d31_region(s, i):
+                    fin = "D31"
+                elif restaged_unfinished(s, i):
+                    fin = "D2"      # the report of a superseded action meets the record of the later one
             out.append(V("internal error %s escaped %s" % (x, op["op"]), i, fin))
     return out
 
